@@ -144,3 +144,37 @@ fn decrypt_header_total_24() {
 fn decrypt_header_total_40() {
     decrypt_header_case::<40>();
 }
+
+fn partial_decode_new_case<const N: usize>() {
+    let data: [u8; N] = vk::any();
+    let len: usize = vk::any();
+    vk::assume(len <= N);
+    let mut bytes = BytesMut::from(&data[..]);
+    bytes.truncate(len);
+    let cid_len: usize = vk::any();
+    vk::assume(cid_len <= 20);
+    let parser = FixedLengthConnectionIdParser::new(cid_len);
+    let grease: bool = vk::any();
+    // a supported-version Initial with an empty token and one with a token whose length field is the last byte
+    vk::vk_cover!(len >= 8 && data[0] & 0xf0 == 0xc0 && data[1] == 0 && data[2] == 0 && data[3] == 0 && data[4] == 1);
+    let r = PartialDecode::new(bytes, &parser, &[1u32], grease);
+    match r {
+        Ok((pd, rest)) => {
+            let used = pd.buf.get_ref().len();
+            let tail = match &rest { Some(b) => b.len(), None => 0 };
+            assert!(used + tail == len, "packet and trailing data together are the datagram");
+            assert!(pd.buf.position() as usize <= used, "the header ends inside the packet");
+            core::mem::forget(rest);
+            core::mem::forget(pd);
+        }
+        Err(_) => {}
+    }
+}
+
+// @harness partial_decode_new_total_12 props=C03,C10 tier=thorough kind=proof timeout=1200 fn="PartialDecode::new / ProtectedHeader::decode" desc="for every datagram of 0..=12 bytes, every local CID length 0..=20 and either grease setting: decoding the unprotected header never panics or reads past the datagram (token length, CID lengths and payload length are all checked against what is left); on success packet + trailing data = the datagram and the header ends inside the packet"
+#[cfg_attr(kani, kani::proof)]
+#[cfg_attr(kani, kani::unwind(24))]
+#[cfg_attr(verif_replay, test)]
+fn partial_decode_new_total_12() {
+    partial_decode_new_case::<12>();
+}
